@@ -105,7 +105,8 @@ MUTANTS = [
     {"id": "C14-dec-shift-drops-bit", "prop": "C14", "expect": "DEC-BITS/decoder::Base64Decoder::decode_u8x4/byte0",
      "edits": [("src/decoder.rs", "let b0 = (o0 << 2) | (o1 >> 4);", "let b0 = (o0 << 2) | (o1 >> 5);")]},
     {"id": "C14-dec-wrong-sextet", "prop": "C14", "expect": "DEC-BITS",
-     "edits": [("src/decoder.rs", "let o2 = BASE64_DECODE[i2 as usize];", "let o2 = BASE64_DECODE[i3 as usize];")]},
+     "edits": [("src/decoder.rs", "let o2 = BASE64_DECODE[i2 as usize];", "let o2 = BASE64_DECODE[i3 as usize];"),
+               ("src/decoder.rs", "let o3 = BASE64_DECODE[i3 as usize];", "let o3 = BASE64_DECODE[i2 as usize];")]},
     # ---------------- padding ----------------
     {"id": "C14-finish-one-pad-for-one-octet", "prop": "C14", "expect": "ENC-PAD",
      "edits": [("src/encoder.rs", "dst[1] = BASE64_ENCODE[((s0 << 4) & 0x3f) as usize];",
